@@ -118,6 +118,10 @@ func (k Keeper) ReturnSlashedTokens(ctx context.Context, amt math.Int, hashId []
 		// bonded pool, so the token source is always bonded: for a bonded validator the delegate method
 		// (in staking module) then moves nothing, for a validator that is not bonded it moves the tokens
 		// from the bonded to the not bonded pool, which keeps both pools backing their delegations
+		// a share that truncates to zero is skipped: delegating zero tokens would leave a delegation without shares
+		if shareAmt.TruncateInt().IsZero() {
+			continue
+		}
 		_, err = k.stakingKeeper.Delegate(ctx, delAddr, shareAmt.TruncateInt(), stakingtypes.Bonded, val, false) // false means to not subtract tokens from an account
 		if err != nil {
 			return err
@@ -168,6 +172,10 @@ func (k Keeper) FeeRefund(ctx context.Context, hashId []byte, amt math.Int) erro
 		amtDec := math.LegacyNewDecFromInt(amt)
 		shareAmtDec := sourceAmountDec.Mul(amtDec).Quo(trackedFeesTotalDec)
 		shareAmt := shareAmtDec.TruncateInt()
+		// a share that truncates to zero is skipped: delegating zero tokens would leave a delegation without shares
+		if shareAmt.IsZero() {
+			continue
+		}
 		_, err = k.stakingKeeper.Delegate(ctx, sdk.AccAddress(source.DelegatorAddress), shareAmt, stakingtypes.Bonded, val, false)
 		if err != nil {
 			return err
@@ -206,6 +214,10 @@ func (k Keeper) GetBondedValidators(ctx context.Context, max uint32) ([]stakingt
 // TODO: this should be in dispute module, no reason for it to be in reporter module
 // Stakes a given amount of tokens to a BONDED validator from a given address
 func (k Keeper) AddAmountToStake(ctx context.Context, acc sdk.AccAddress, amt math.Int) error {
+	// nothing to stake: delegating zero tokens would leave a delegation without shares
+	if amt.IsZero() {
+		return nil
+	}
 	vals, err := k.GetBondedValidators(ctx, 1)
 	if err != nil {
 		return err
